@@ -23,8 +23,15 @@ Definition flags_hex (f : byte) : bytes :=
    n2b (nth (N.to_nat (b2n f mod 16)) kFlagsHexTable 0%N)].
 
 (* HttpTraceContext::InjectImpl: (traceparent, tracestate header if non-empty) *)
+(* TraceId/SpanId::ToLowerBase16, each through the digit table of its own header *)
+Fixpoint id_hex (tbl : list N) (l : bytes) : bytes :=
+  match l with
+  | [] => []
+  | b :: l' => n2b (nth (N.to_nat (b2n b / 16)) tbl 0%N) :: n2b (nth (N.to_nat (b2n b mod 16)) tbl 0%N) :: id_hex tbl l'
+  end.
+
 Definition inject_traceparent (c : span_ctx) : bytes :=
-  [zero_digit; zero_digit; dash] ++ to_lower_hex (c_tid c) ++ [dash] ++ to_lower_hex (c_sid c)
+  [zero_digit; zero_digit; dash] ++ id_hex kTraceIdHexTable (c_tid c) ++ [dash] ++ id_hex kSpanIdHexTable (c_sid c)
     ++ [dash] ++ flags_hex (c_flags c).
 
 Definition inject (c : span_ctx) : option (bytes * option bytes) :=
